@@ -188,13 +188,13 @@ def oracle_image(inp):
         return out
     try:
         raw = cv2.imread(fn, cv2.IMREAD_UNCHANGED)
-        out.append(('bit_depth', raw is not None and raw.dtype == (np.uint8 if depth == 8 else np.uint16), 'uint%d' % depth, str(getattr(raw, 'dtype', None))))
+        out.append(('info:bit_depth', raw is not None and raw.dtype == (np.uint8 if depth == 8 else np.uint16), 'uint%d' % depth, str(getattr(raw, 'dtype', None))))
         if inp.get('ambiguous'):
             return out
         if raw is not None and raw.ndim == 3 and lvs.ndim == 3 and raw.shape == lvs.shape:
             order = [2, 1, 0] + list(range(3, raw.shape[2]))
             wrong = np.argwhere((raw[:, :, order] != lvs).any(axis=2))
-            out.append(('channel_order_on_disk', len(wrong) == 0, 'B, G, R(, A) of every pixel in the file',
+            out.append(('info:channel_order_on_disk', len(wrong) == 0, 'B, G, R(, A) of every pixel in the file',
                         None if len(wrong) == 0 else 'pixel %s stored as %s for R,G,B(,A) = %s' % (wrong[0].tolist(), raw[tuple(wrong[0])].tolist(), lvs[tuple(wrong[0])].tolist())))
         if api == 'numpy':
             got = T.load_image(fn)
@@ -206,7 +206,7 @@ def oracle_image(inp):
         else:
             got = LT.load_image(fn)
             gots = [('load', got.numpy(), lvs)]
-            out.append(('loaded_is_float_tensor', isinstance(got, torch.Tensor) and got.dtype == torch.float32, 'torch.float32 tensor', str(type(got))))
+            out.append(('info:loaded_is_float_tensor', isinstance(got, torch.Tensor) and got.dtype == torch.float32, 'torch.float32 tensor', str(type(got))))
             if lvs.ndim == 3:
                 gots.append(('load_torch_style', LT.load_image(fn, torch_style=True).numpy(), np.moveaxis(lvs, -1, 0)))
         for name, g, want in gots:
@@ -255,14 +255,14 @@ def oracle_clip(inp):
 
 # ---------------------------------------------------------------- dictionaries
 def same_json(a, b):
-    if type(a) is not type(b):
+    """equality of JSON values as Python compares them: dictionaries as mappings (key order is not part of
+    the value), lists in order, leaves with == (a bool never equals a number here, NaN is not generated)"""
+    if isinstance(a, dict) or isinstance(b, dict):
+        return isinstance(a, dict) and isinstance(b, dict) and set(a.keys()) == set(b.keys()) and all(same_json(a[k], b[k]) for k in a)
+    if isinstance(a, list) or isinstance(b, list):
+        return isinstance(a, list) and isinstance(b, list) and len(a) == len(b) and all(same_json(u, v) for u, v in zip(a, b))
+    if isinstance(a, bool) != isinstance(b, bool):
         return False
-    if isinstance(a, dict):
-        return list(a.keys()) == list(b.keys()) and all(same_json(a[k], b[k]) for k in a)
-    if isinstance(a, list):
-        return len(a) == len(b) and all(same_json(u, v) for u, v in zip(a, b))
-    if isinstance(a, float):
-        return a.hex() == b.hex()
     return a == b
 
 
@@ -273,7 +273,7 @@ def oracle_dictionary(inp):
     out = []
     try:
         r = T.save_dictionary(d, fn)
-        out.append(('save_returns_settings', r is d or same_json(r, d), 'the dictionary', None))
+        out.append(('info:save_returns_settings', r is d or same_json(r, d), 'the dictionary', None))
         raw = rd(fn)
         try:
             viautf8 = json.loads(raw.decode('utf-8'))
@@ -294,29 +294,33 @@ import json, sys
 import odak.tools as T
 cases = json.load(open(sys.argv[1], encoding='ascii'))
 res = []
-for i, d in enumerate(cases):
-    fn = sys.argv[2] + '.%d.json' % i
+for i, c in enumerate(cases):
+    fn = sys.argv[2] + '.%d.dat' % i
     try:
-        T.save_dictionary(d, fn)
-        got = T.load_dictionary(fn)
-        res.append({'ok': json.dumps(got, sort_keys=True) == json.dumps(d, sort_keys=True), 'obs': json.dumps(got)[:200]})
+        if c['kind'] == 'dict':
+            T.save_dictionary(c['v'], fn)
+            got = T.load_dictionary(fn)
+        else:
+            T.write_to_text_file(c['v'], fn)
+            got = T.read_text_file(fn)
+        res.append({'ok': got == c['v'], 'obs': json.dumps(got)[:200]})
     except Exception as e:
         res.append({'ok': False, 'obs': repr(e)[:200]})
 json.dump(res, open(sys.argv[3], 'w', encoding='ascii'))
 '''
 
 
-def run_in_locale(dicts, env_over):
-    """save_dictionary + load_dictionary in a fresh interpreter whose locale is not UTF-8"""
+def run_in_locale(cases, env_over):
+    """save + load in a fresh interpreter whose locale is not UTF-8; cases: [{'kind': 'dict'|'text', 'v': value}]"""
     base = fresh('')
     cases_fn, res_fn = base + '.cases', base + '.res'
-    json.dump(dicts, open(cases_fn, 'w', encoding='ascii'), ensure_ascii=True)
+    json.dump(cases, open(cases_fn, 'w', encoding='ascii'), ensure_ascii=True)
     env = dict(os.environ); env.update(env_over)
     p = subprocess.run([sys.executable, '-c', LOCALE_SCRIPT, cases_fn, base, res_fn], env=env, capture_output=True, text=True, timeout=300)
     try:
         res = json.load(open(res_fn, encoding='ascii'))
     except Exception:
-        res = [{'ok': False, 'obs': 'interpreter failed: ' + (p.stderr or '')[-300:]}] * len(dicts)
+        res = [{'ok': False, 'obs': 'interpreter failed: ' + (p.stderr or '')[-300:]}] * len(cases)
     for f in os.listdir(scr()):
         if f.startswith(os.path.basename(base) + '.'):
             rm(os.path.join(scr(), f))
@@ -328,8 +332,14 @@ C_LOCALE = {'LC_ALL': 'C', 'LANG': 'C', 'PYTHONUTF8': '0', 'PYTHONCOERCECLOCALE'
 
 def oracle_dictionary_locale(inp):
     """the file is written as UTF-8 explicitly, so it must load whatever the locale's default codec is"""
-    res = run_in_locale([inp['d']], inp.get('env', C_LOCALE))
+    res = run_in_locale([{'kind': 'dict', 'v': inp['d']}], inp.get('env', C_LOCALE))
     return [('values_identical_in_non_utf8_locale', res[0]['ok'], 'the dictionary', res[0]['obs'])]
+
+
+def oracle_text_locale(inp):
+    """a line list with non-ASCII text is written and read back whatever the locale's default codec is"""
+    res = run_in_locale([{'kind': 'text', 'v': inp['lines']}], inp.get('env', C_LOCALE))
+    return [('lines_identical_in_non_utf8_locale', res[0]['ok'], 'the list written', res[0]['obs'])]
 
 
 # ---------------------------------------------------------------- text line lists
@@ -463,7 +473,7 @@ def oracle_ply(inp):
         got = T.read_PLY(fn)
         want = tris.astype(np.float32)
         out.append(('shape_identical', tuple(got.shape) == (inp['n'], 3, 3), [inp['n'], 3, 3], list(got.shape)))
-        out.append(('dtype_float32', got.dtype == np.float32, 'float32', str(got.dtype)))
+        out.append(('info:dtype_float32', got.dtype == np.float32, 'float32', str(got.dtype)))
         if tuple(got.shape) == tuple(want.shape):
             bad = np.argwhere(got != want)
             out.append(('values_identical', len(bad) == 0, 'every coordinate equal to its binary32 value',
@@ -516,11 +526,11 @@ def oracle_tensor(inp):
     return out
 
 
-ORACLES = {'image': oracle_image, 'clip': oracle_clip, 'dictionary': oracle_dictionary, 'dictionary_locale': oracle_dictionary_locale,
+ORACLES = {'image': oracle_image, 'clip': oracle_clip, 'dictionary': oracle_dictionary, 'dictionary_locale': oracle_dictionary_locale, 'text_locale': oracle_text_locale,
            'text': oracle_text, 'copy': oracle_copy, 'copy_arguments': oracle_copy_arguments, 'ply': oracle_ply,
            'tensor': oracle_tensor}
 FUNCTION = {'image': None, 'clip': 'odak.tools.save_image/load_image', 'dictionary': 'odak.tools.save_dictionary/load_dictionary',
-            'dictionary_locale': 'odak.tools.save_dictionary/load_dictionary', 'text': 'odak.tools.write_to_text_file/read_text_file',
+            'dictionary_locale': 'odak.tools.save_dictionary/load_dictionary', 'text_locale': 'odak.tools.write_to_text_file/read_text_file', 'text': 'odak.tools.write_to_text_file/read_text_file',
             'copy': 'odak.tools.copy_file', 'copy_arguments': 'odak.tools.copy_file', 'ply': 'odak.tools.write_PLY/read_PLY',
             'tensor': 'odak.learn.tools.save_torch_tensor/torch_load'}
 
@@ -533,9 +543,18 @@ def apply_oracle(ctx, name, inp):
     fn = FUNCTION[name] or ('odak.learn.tools.save_image/load_image' if inp.get('api') == 'torch' else 'odak.tools.save_image/load_image')
     bad = 0
     for clause, ok, exp, obs in res:
-        if not ok:
-            bad += 1
-            report(ctx, fn, clause, dict(inp, oracle=name), exp, obs)
+        if ok:
+            continue
+        if clause.startswith('info:'):
+            # observations beyond the statement of the property (bit depth / channel order of the file as other
+            # programs see it, return values, dtypes): counted in the evidence, never an alarm
+            info = ctx.extra.setdefault('informative_observations_failed', {})
+            if clause not in info:
+                ctx.log('informative (not part of the property): %s %s input=%s observed=%s' % (fn, clause, json.dumps(inp, default=str)[:200], str(obs)[:200]))
+            info[clause] = info.get(clause, 0) + 1
+            continue
+        bad += 1
+        report(ctx, fn, clause, dict(inp, oracle=name), exp, obs)
     return bad, res
 
 
@@ -1041,7 +1060,7 @@ def run(ctx):
                 'non-square sizes, ranges cmax in {2^d-1, 1, 100, 3, 0.1, 1e-3, 1e6, ...}, cmin inside the range, NumPy and PyTorch APIs '
                 '(HW, CHW, HWC, 1CHW; shapes for which CHW and HWC cannot be told apart are accepted under either reading); '
                 'dictionaries: random nested JSON values incl. non-ASCII keys/strings, control characters, big ints, extreme floats, '
-                'also loaded in an interpreter with a C (ASCII) locale; line lists: empty list, empty lines, trailing/leading blanks of '
+                'also saved and loaded in an interpreter with a C (ASCII) locale, as are non-ASCII line lists; line lists: empty list, empty lines, trailing/leading blanks of '
                 'every Unicode white-space class, non-ASCII, long lines, append mode; copies: sizes 0..300 kB, existing destination, '
                 'symlinked source, ~ expansion, non-ASCII names, same file; PLY: 0..50 triangles, binary32 / binary64 / edge values; '
                 'tensors: dtypes, ranks 0..4, empty, non-contiguous. Non-trivial = the implementation produced a file that was read back; '
@@ -1054,7 +1073,12 @@ def run(ctx):
     ctx.assumptions += ['text lines contain no CR/LF (a line-oriented file cannot hold them: theorem C19_lines_need_clean)',
                         'pixel values are finite, cmax > 0, 0 <= cmin <= cmax; an (H,W,1) array comes back as (H,W)',
                         'PLY coordinates come back as their binary32 values (the file declares float columns)',
-                        'JSON values are JSON-native (string keys, lists, finite floats)']
+                        'JSON values are JSON-native (string keys, lists, finite floats)',
+                        'PARTIAL: external codecs enter the theorems as contracts (hypotheses), exercised on the real libraries each run but not verified: '
+                        'cv2.imwrite/imread PNG (imread(imwrite(a)) = a for uint8/uint16 arrays with 1/3/4 channels, (H,W,1) -> (H,W)); '
+                        'json.dump/json.load (parse(dump d) = d); plyfile (tables written are the tables read; float columns are binary32); '
+                        'the interpreter\'s UTF-8 codec and universal-newline text reader (modelled, compared byte-wise each run); '
+                        'torch.save/torch.load (no model, no theorem: observed by the tensor oracle only)']
     ctx.gate()
     ctx.ensure_theories(['theories/C19/Props.vo'])
     ctx.theorems('OdakV.C19.Props', PROPS)
@@ -1090,13 +1114,7 @@ def run(ctx):
     for d in dicts:
         bad, res = apply_oracle(ctx, 'dictionary', {'d': d}); n_or += 1
         ctx.case('dictionary/%s' % ('non-ascii' if has_non_ascii(d) else 'ascii'), json.dumps(d, sort_keys=True))
-    loc = [d for d in dicts if has_non_ascii(d)][:25] + [d for d in dicts if not has_non_ascii(d)][:5]
-    res = run_in_locale(loc, C_LOCALE)
-    for d, r in zip(loc, res):
-        n_or += 1
-        ctx.case('dictionary/C-locale/%s' % ('non-ascii' if has_non_ascii(d) else 'ascii'), json.dumps(d, sort_keys=True))
-        if not r['ok']:
-            report(ctx, FUNCTION['dictionary_locale'], 'values_identical_in_non_utf8_locale', {'d': d, 'env': C_LOCALE, 'oracle': 'dictionary_locale'}, 'the dictionary', r['obs'])
+    texts = []
     for k in range(120 if not ctx.thorough else 1200):
         ls = gen_lines(rng, k)
         inp = {'lines': ls}
@@ -1106,6 +1124,22 @@ def run(ctx):
         ctx.case('text/%s' % ('empty' if not ls else 'blank-tail' if any(l != l.rstrip() for l in ls) else 'plain'), json.dumps(ls))
         if len(ctx.samples) < 5 and any(l != l.rstrip() for l in ls) and len(ls) < 4:
             ctx.sample({'lines': ls})
+        texts.append(ls)
+    # one fresh interpreter under a C (ASCII) locale: the files are UTF-8 whatever the locale says
+    loc = [d for d in dicts if has_non_ascii(d)][:25] + [d for d in dicts if not has_non_ascii(d)][:5]
+    tloc = [t for t in texts if has_non_ascii(t) and sum(map(len, t)) < 2000][:40] + [t for t in texts if not has_non_ascii(t)][:5]
+    tloc += [['h\xe9llo'], ['\u65e5\u672c\u8a9e ', '', '\U0001f600\t'], ['\xa0']]
+    res = run_in_locale([{'kind': 'dict', 'v': d} for d in loc] + [{'kind': 'text', 'v': t} for t in tloc], C_LOCALE)
+    for d, r in zip(loc, res[:len(loc)]):
+        n_or += 1
+        ctx.case('dictionary/C-locale/%s' % ('non-ascii' if has_non_ascii(d) else 'ascii'), json.dumps(d, sort_keys=True))
+        if not r['ok']:
+            report(ctx, FUNCTION['dictionary_locale'], 'values_identical_in_non_utf8_locale', {'d': d, 'env': C_LOCALE, 'oracle': 'dictionary_locale'}, 'the dictionary', r['obs'])
+    for t, r in zip(tloc, res[len(loc):]):
+        n_or += 1
+        ctx.case('text/C-locale/%s' % ('non-ascii' if has_non_ascii(t) else 'ascii'), json.dumps(t))
+        if not r['ok']:
+            report(ctx, FUNCTION['text_locale'], 'lines_identical_in_non_utf8_locale', {'lines': t, 'env': C_LOCALE, 'oracle': 'text_locale'}, 'the list written', r['obs'])
     for inp in gen_copy_inputs(ctx):
         apply_oracle(ctx, 'copy', inp); n_or += 1
         ctx.case('copy/%s' % ('same' if inp['src_name'] == inp['dst_name'] else 'symlink' if inp.get('src_is_symlink') else 'file'), json.dumps(inp, sort_keys=True))
